@@ -76,6 +76,9 @@ def cases(tier, seed):
                     # order one): the covariance is shift invariant, all inputs are exact in binary
                     out.append(dict(part="cov", M=M, B=B, vals=list(vals), offset=1.0e6))
         out.append(dict(part="cov", M=M, B=B, vals=[C.PRIMES[i] * (1 + i % 3) for i in range(M * B)]))
+    for N in (2, 3, 5, 127, 128, 129, 181, 182, 183, 200, 255, 256, 257, 300, 362, 363, 400) + ((1000, 2000) if tier == "thorough" else ()):
+        for B in (1, 3):
+            out.append(dict(part="resample", N=N, B=B))
     # (e) end to end: remove patch k from every input frame and measure again (differential oracle)
     pas = ("b0", "w0", "n0") if tier == "quick" else ("c0", "b0", "w0", "n0", "f0")
     pbs = ("b1", "n0") if tier == "quick" else ("c1", "b1", "n0", "n1")
@@ -141,9 +144,46 @@ def run_sum(case):
         v.append(viol(f"C03/{T}.sample_patch_sum/{tag}/samples-{kind}",
                       f"{T} ({tag}, content {case['content']}) jackknife samples {got.samples.tolist()} "
                       f"!= leave-one-out recomputation {es.tolist()}"))
+    if T in ("PatchedCounts", "NormalisedCounts") and case["content"] == "fp":
+        # the documented in-place setter after a first sampling: the next sampling describes the current counts
+        pc = x if T == "PatchedCounts" else x.counts
+        new = counts.copy()
+        i, j = (0, N - 1)
+        new[:, i, j] = new[:, i, j] * 3.0 + 11.0
+        try:
+            pc.set_patch_pair(i, j, new[:, i, j])
+            got2 = x.sample_patch_sum()
+            ed2, es2 = ref.ref_jackknife_sum(new) if T == "PatchedCounts" else ref.ref_norm_term(new, sw1, sw2, auto)
+            if not (ref.close(got2.data, ed2) and ref.close(got2.samples, es2)):
+                v.append(viol(f"C03/{T}.sample_patch_sum/stale-after-set_patch_pair",
+                              f"{T}: sampling after set_patch_pair({i},{j}) does not describe the updated counts"))
+        except Exception as e:
+            v.append(viol(f"C03/{T}.set_patch_pair/exception:{type(e).__name__}", f"raised {yawx.exc_name(e)}"))
     # non-trivial: samples pairwise different (a permutation would show)
     nontrivial = len({tuple(r) for r in np.round(es, 12).tolist()}) == N
     return v, nontrivial
+
+
+def run_resample(case):
+    """resample_jackknife on per-patch histograms with many patches (index arithmetic grows with N^2)."""
+    from yaw.redshifts import resample_jackknife
+
+    N, B = case["N"], case["B"]
+    obs = (np.arange(N)[:, None] * 7.0 + np.arange(B)[None, :] * 3.0 + 1.0) ** 2 % 1009.0 + np.arange(N)[:, None]
+    want = obs.sum(axis=0)[None, :] - obs  # leave-one-out sums, exact in float64 (integers)
+    v = []
+    for rows, arg in ((True, obs), (False, obs.T.copy())):
+        try:
+            got = resample_jackknife(arg, patch_rows=rows)
+        except Exception as e:
+            v.append(viol(f"C03/resample_jackknife/exception:{type(e).__name__}", f"raised {yawx.exc_name(e)} for {N} patches"))
+            continue
+        if got.shape != want.shape or not np.array_equal(got, want):
+            bad = int(np.sum(np.any(got != want, axis=1))) if got.shape == want.shape else N
+            v.append(viol("C03/resample_jackknife/samples-wrong",
+                          f"resample_jackknife with {N} patches x {B} bins (patch_rows={rows}): {bad} of {N} samples are "
+                          f"not the sum over all patches but k"))
+    return v, True
 
 
 def run_corrfunc(case):
@@ -183,6 +223,23 @@ def run_corrfunc(case):
         v.append(viol(f"C03/CorrFunc.sample/samples-{kind}/{'+'.join(members)}",
                       f"CorrFunc.sample().samples {got.samples.tolist()} != estimator on leave-one-out "
                       f"terms {es.tolist()}"))
+    # in-place update of one member after the first sampling: the next sampling describes the current counts
+    if which and autos == "none":
+        m = members[0]
+        nc = getattr(cf, m)
+        i, j = 0, N - 1
+        nc.counts.set_patch_pair(i, j, nc.counts.counts[:, i, j] * 2.0 + 5.0)
+        vals2, samps2 = terms_of(cf)
+        try:
+            got2 = cf.sample()
+            ok = any(ref.close(got2.data, d) and ref.close(got2.samples, s_)
+                     for d, s_ in zip(ref.ref_estimator(vals2), ref.ref_estimator(samps2)))
+            if not ok:
+                v.append(viol("C03/CorrFunc.sample/stale-after-set_patch_pair",
+                              f"CorrFunc.sample() after {m}.counts.set_patch_pair({i},{j}) does not describe the updated counts"))
+        except Exception as e:
+            v.append(viol(f"C03/CorrFunc.sample/exception:{type(e).__name__}", f"second sample() raised {yawx.exc_name(e)}"))
+        cf = C.make_corrfunc(B, N, auto, members)  # pristine object for what follows
     # covariance and error of exactly these samples
     try:
         cov = got.covariance
@@ -357,7 +414,7 @@ def run_e2e(case):
 
 def run_case(case):
     part = case["part"]
-    fn = dict(sum=run_sum, corrfunc=run_corrfunc, hist=run_hist, cov=run_cov, e2e=run_e2e)[part]
+    fn = dict(sum=run_sum, corrfunc=run_corrfunc, hist=run_hist, cov=run_cov, e2e=run_e2e, resample=run_resample)[part]
     viols, nontrivial = fn(case)
     res = dict(nontrivial=bool(nontrivial), key=case)
     if viols:
